@@ -10,6 +10,7 @@ from vlib import cgen, ref
 from vlib.harness import SubCheck, forked, is_open, must, require
 
 PROPERTY_ID = "C07"
+TECHNIQUE = 'metamorphic one-step relations on generated modifier chains (Hypothesis), sympy evaluation in forked children with time-outs, scipy/numpy reference semantics'
 RULE = (
     "Base gates (27 built-ins at drawn angles, random-unitary and exact-entry custom gates) x modifier "
     "chains of depth <= 2 (3 thorough) over {dagger, controlled(1..2), power(p), exp}, p in "
